@@ -170,12 +170,13 @@ class _CommonFile:
         """
         if path is not None:
             with open(path, "rb") as fh:
-                self._mtime = 0
                 self._load_lines(fh)
+                self._mtime = 0
         elif self._path:
             with open(self._path, "rb") as fh:
-                self._mtime = os.path.getmtime(self._path)
+                mtime = os.path.getmtime(self._path)
                 self._load_lines(fh)
+                self._mtime = mtime
         else:
             raise RuntimeError(
                 f"{self.__class__.__name__}().path is not set, an explicit path is required"
@@ -185,8 +186,8 @@ class _CommonFile:
     def load_string(self, data):
         """Load state from unicode or bytes string, replacing current state"""
         data = to_bytes(data, self.encoding, "data")
-        self._mtime = 0
         self._load_lines(BytesIO(data))
+        self._mtime = 0
 
     def _load_lines(self, lines):
         """load from sequence of lists"""
